@@ -59,6 +59,7 @@ func checkC15(c *Ctx) {
 	c.checkEndingsClear(clearers)
 	c.checkEndingOrigin(clearers)
 	c.checkAcceptRecordedAfterPublished()
+	c.checkNoRefusalAfterSave()
 	c.checkIceBehindEnabled()
 	// (4) re-entrancy
 	c.checkSlotReentrancy(slot)
@@ -305,6 +306,7 @@ func (c *Ctx) checkSlotReentrancy(slot *types.Var) {
 			}
 		}
 	}
+	c.checkEndingClearsFirst(slot, reach)
 	r.Floor("C15.4-slot-reentrancy", 3)
 	for _, fn := range c.P.ModFuncs {
 		if !core.InPkg(fn, "server") || !c.readsField(fn, slot) {
@@ -386,6 +388,100 @@ func (c *Ctx) checkSlotReentrancy(slot *types.Var) {
 		r.Check(bad == nil, "C15.4-slot-reentrancy", fk(fn)+": call slot not dereferenced after a call that may end the call", c.P.Pos(fn.Pos()), "",
 			fmt.Sprintf("Topic.currentCall is dereferenced%s after %s%s, which can reach a function that clears or replaces the slot (e.g. detaching a stuck party session ends the call), without a new nil test", posOf(c, bad), describeCallSafe(badCall), posOf(c, badCall)))
 	}
+}
+
+// checkEndingClearsFirst (C15): every call ends exactly once: a function that frees the call slot
+// (stores nil) does so before it calls anything that can come back to an ending function - saving
+// and broadcasting the final message can detach a stuck party session, which ends "the call in
+// progress" again while the slot is still taken (found defect D4; its repair is this order).
+func (c *Ctx) checkEndingClearsFirst(slot *types.Var, reach map[*ssa.Function]bool) {
+	r := c.R
+	const rule = "C15.4b-slot-freed-before-reentrant-calls"
+	n := 0
+	direct := func(fn *ssa.Function) []ssa.Instruction {
+		var clears []ssa.Instruction
+		core.AllInstrs(fn, func(in ssa.Instruction) {
+			if st, ok := in.(*ssa.Store); ok {
+				if f, _ := core.FieldOfAddr(st.Addr); f == slot && core.IsNil(st.Val) && !rootsInAlloc(st.Addr) {
+					clears = append(clears, in)
+				}
+			}
+		})
+		return clears
+	}
+	// a helper that frees the slot on every path (`releaseCurrentCall()`): calling it is freeing
+	releases := map[*ssa.Function]bool{}
+	for _, g := range c.P.ModFuncs {
+		if !core.InPkg(g, "server") || len(g.Blocks) == 0 {
+			continue
+		}
+		d := direct(g)
+		if len(d) == 0 {
+			continue
+		}
+		isD := func(in ssa.Instruction) bool {
+			for _, x := range d {
+				if x == in {
+					return true
+				}
+			}
+			return false
+		}
+		if found, _ := core.PathAvoiding(g, nil, core.IsReturn, isD, nil); !found {
+			releases[g] = true
+		}
+	}
+	clearsOf := func(fn *ssa.Function) []ssa.Instruction {
+		clears := direct(fn)
+		core.AllInstrs(fn, func(in ssa.Instruction) {
+			if call, ok := in.(*ssa.Call); ok {
+				if cal := call.Call.StaticCallee(); cal != nil && cal != fn && releases[cal] {
+					clears = append(clears, in)
+				}
+			}
+		})
+		return clears
+	}
+	for _, fn := range c.P.ModFuncs {
+		if !core.InPkg(fn, "server") || fn.Parent() != nil {
+			continue
+		}
+		clears := clearsOf(fn)
+		if len(clears) == 0 {
+			continue
+		}
+		n++
+		r.Func(fk(fn))
+		isClear := func(in ssa.Instruction) bool {
+			for _, x := range clears {
+				if x == in {
+					return true
+				}
+			}
+			return false
+		}
+		var bad ssa.Instruction
+		core.AllInstrs(fn, func(in ssa.Instruction) {
+			call, ok := in.(*ssa.Call)
+			if !ok || bad != nil {
+				return
+			}
+			cal := call.Call.StaticCallee()
+			if cal == nil || !reach[cal] || cal == fn {
+				return
+			}
+			if len(cal.Blocks) > 0 && len(clearsOf(cal)) > 0 {
+				return // handing over to another ending function, which is held to the same rule
+			}
+			// reachable from the entry without the slot having been freed?
+			if found, _ := core.PathAvoiding(fn, nil, func(x ssa.Instruction) bool { return x == in }, isClear, nil); found {
+				bad = in
+			}
+		})
+		r.Check(bad == nil, rule, fk(fn)+": the call slot is freed before anything that can end the call again", c.P.Pos(fn.Pos()), "",
+			"the slot is still taken when "+describeCallSafe(bad)+posOf(c, bad)+" runs, which can reach an ending function (a stuck party session detached by the final broadcast): the same call is ended twice, recursively")
+	}
+	r.Check(n >= 1, rule, "functions that free the call slot", "-", fmt.Sprintf("%d", n), "none: anchor lost")
 }
 
 func describeCallSafe(in ssa.Instruction) string {
